@@ -164,6 +164,9 @@ def replay(v):
         from ..acc import Acc
         from ..prog import build, compare
         a = Acc(ID, 0, 1, 600)
+        if any(fn in repr(c["prog"]) for fn in ir.SETUP_FNS):
+            run_nested(a, {"prog": c["prog"]})  # setup nodes: the outcome of a call depends on the calls before it
+            return a.violations, None
         d, ns, src = build(c["prog"], c["config"], c["is_async"])
         args = tuple(c["args"])
         if c["is_async"]:
@@ -175,5 +178,10 @@ def replay(v):
         res = H.run_controlled(op, prefix=tuple(v["prefix"]), is_async=c["is_async"])
         compare(a, c, c["prog"], args, res, ir.ref_eval(c["prog"], args), src)
         return a.violations, res.trace
+    if v["kind"] == "debug_selection_depends_on_declaration_order":
+        from ..acc import Acc
+        a = Acc(ID, 0, 1, 600)
+        run_case(a, c, MONITORS, nontrivial)  # the oracle compares executor graphs before anything runs
+        return a.violations, None
     res, viols = replay_case(c, MONITORS, v["prefix"])
     return viols, res.trace
